@@ -585,7 +585,8 @@ func checkC10(c *Ctx, r *Report) error {
 	r.Coverage["families"] = len(names)
 	r.Coverage["race_detector"] = raceNote
 	renderStrata(r)
-	r.Rule = "one case = one constructor family (primitives, every combinator, wrappers, cache, voxel, mesh import via obj.ImportSTL/ImportTriMesh, text, obj parts) hammered in one mode (full speed / race detector): 16 goroutines evaluate the same point set (half of the points repeated) on a fresh instance, every value compared bit-exactly with sequential evaluation of another instance, then a NewMarchingCubesUniform render under GOMAXPROCS 1 and 16; non-trivial = always (each family has state reachable from Evaluate), distinct by family and mode. cache counter cases: call sequences with 0..40 calls on 1..12 distinct points against the atomic cache model; non-trivial = at least 2 calls."
+	probeStrata(c, r)
+	r.Rule = "one case = one constructor family (primitives, every combinator, wrappers, cache, voxel, mesh import via obj.ImportSTL/ImportTriMesh, text, obj parts) hammered in one mode (full speed / race detector): 16 goroutines evaluate the same point set (half of the points repeated) on a fresh instance, every value compared bit-exactly with sequential evaluation of another instance, then a NewMarchingCubesUniform render under GOMAXPROCS 1 and 16; non-trivial = always (each family has state reachable from Evaluate), distinct by family and mode. cache counter cases: call sequences with 0..40 calls on 1..12 distinct points against the atomic cache model; non-trivial = at least 2 calls. overlap cases: one per operand-holding constructor (unions of 2..300 operands plain/blended, intersect, difference, offset, cut, transform, scale, array, rotate union/copy, elongate, line-of, multi, cache, slice, the extrusions, loft, revolve, screw, orient, shell) and mode: operands are probe operands that re-enter Evaluate of the enclosing shape at other points (one goroutine, deterministic) or park the evaluation while another goroutine evaluates the same shape (nested and crossed schedules); every value compared bit-exactly with a second instance built from plain operands."
 	r.Trusted = append(r.Trusted,
 		"harness/effsum: static effect summariser (go/packages + go/ssa of golang.org/x/tools v0.29.0, loaded offline): field-based abstract locations, access-path equality for lock ownership, RLock counted as holding the lock for reads only, callee effects re-rooted at call sites; calls through function values are not followed",
 		"the Go memory model is abstracted to: conflicting accesses of two goroutines with no common mutex held",
